@@ -320,5 +320,183 @@ theorem gemRepeatStr_regenerated (hx : Gen.GemCode.gemRepeatStr_extracted = true
     | (unfold Gen.GemCode.gemRepeatStr
        simp only [gemNew_regenerated (by decide), gemRepeat_regenerated (by decide)]
        gem_run)
+theorem whileCtlM_succ {σ ρ : Type} (n : Nat) (cond : σ → HM Bool) (body : σ → HM (σ × Go.Ctl ρ)) (s : σ) :
+    whileCtlM n.succ cond body s = (cond s >>= fun b =>
+      if b then (body s >>= fun r => match r.2 with
+        | .next => whileCtlM n cond body r.1
+        | .brk => pure (r.1, none)
+        | .ret v => pure (r.1, some v)) else pure (s, none)) := rfl
+
+/-- the first evaluation of the loop condition may write (fill the cache); afterwards the heap is stable -/
+theorem whileCtlM_first {σ ρ : Type} (n : Nat) (cond : σ → HM Bool) (body : σ → HM (σ × Go.Ctl ρ)) (s : σ)
+    (h1 h2 : Heap) (b : Bool) (w : List Wr)
+    (e1 : cond s h1 = (h2, .ok b, w)) (e2 : cond s h2 = (h2, .ok b, [])) :
+    whileCtlM (n + 1) cond body s h1 = prep w (whileCtlM (n + 1) cond body s h2) := by
+  rw [whileCtlM_succ, run_bind_ok e1, run_bind_ok e2, prep_nil]
+
+/-- a search loop `for i := i0; i < len; i++ { if p(i) { return i } }` on a heap that neither condition nor body change -/
+theorem search_loop {β : Type} (cls : List β) (f : β → Bool) (cond : Int → HM Bool) (body : Int → HM (Int × Go.Ctl Int)) (h : Heap)
+    (hc : ∀ i : Nat, cond (i : Int) h = (h, .ok (decide ((i : Int) < (cls.length : Int))), []))
+    (hb : ∀ (i : Nat) (hi : i < cls.length), body (i : Int) h =
+      (h, .ok (if f cls[i] then ((i : Int), Go.Ctl.ret (i : Int)) else ((i : Int) + 1, Go.Ctl.next)), [])) :
+    ∀ (k i fuel : Nat), i + k = cls.length → k + 1 ≤ fuel →
+      whileCtlM fuel cond body (i : Int) h =
+        (h, .ok ((((cls.drop i).findIdx? f).map (fun j => ((i + j : Nat) : Int))).getD (cls.length : Int),
+          ((cls.drop i).findIdx? f).map (fun j => ((i + j : Nat) : Int))), []) := by
+  intro k
+  induction k with
+  | zero =>
+    intro i fuel hik hf
+    obtain ⟨m, rfl⟩ : ∃ m, fuel = m + 1 := ⟨fuel - 1, by omega⟩
+    have : ¬ ((i : Int) < (cls.length : Int)) := by omega
+    rw [whileCtlM_succ, run_bind_ok (hc i), prep_nil]
+    have hd : cls.drop i = [] := List.drop_eq_nil_of_le (by omega)
+    simp [this, run_pure, hd]
+    omega
+  | succ k ih =>
+    intro i fuel hik hf
+    obtain ⟨m, rfl⟩ : ∃ m, fuel = m + 1 := ⟨fuel - 1, by omega⟩
+    have hi : i < cls.length := by omega
+    have : (i : Int) < (cls.length : Int) := by omega
+    rw [whileCtlM_succ, run_bind_ok (hc i), prep_nil]
+    simp only [this, decide_true, if_true]
+    rw [run_bind_ok (hb i hi), prep_nil, List.drop_eq_getElem_cons hi, List.findIdx?_cons]
+    cases hf' : f cls[i] with
+    | true => simp [run_pure]
+    | false =>
+      have e := ih (i + 1) m (by omega) (by omega)
+      simp only [Bool.false_eq_true, if_false]
+      have : ((i : Int) + 1) = ((i + 1 : Nat) : Int) := by omega
+      rw [this, e]
+      cases (cls.drop (i + 1)).findIdx? f <;> simp <;> omega
+
+theorem search_loop0 {β : Type} (cls : List β) (f : β → Bool) (cond : Int → HM Bool) (body : Int → HM (Int × Go.Ctl Int)) (h : Heap)
+    (hc : ∀ i : Nat, cond (i : Int) h = (h, .ok (decide ((i : Int) < (cls.length : Int))), []))
+    (hb : ∀ (i : Nat) (hi : i < cls.length), body (i : Int) h =
+      (h, .ok (if f cls[i] then ((i : Int), Go.Ctl.ret (i : Int)) else ((i : Int) + 1, Go.Ctl.next)), []))
+    (fuel : Nat) (hf : cls.length + 1 ≤ fuel) :
+    whileCtlM fuel cond body 0 h =
+      (h, .ok ((((cls.findIdx? f).map (fun j => ((j : Nat) : Int))).getD (cls.length : Int)),
+        (cls.findIdx? f).map (fun j => ((j : Nat) : Int))), []) := by
+  have := search_loop cls f cond body h hc hb cls.length 0 fuel (by simp) hf
+  simpa using this
+
+theorem clustersFrom_getElem (s : List Int) : ∀ (e : List Nat) (prev i : Nat) (hi : i < (clustersFrom s prev e).length),
+    (clustersFrom s prev e)[i] = sliceRunes s (if i = 0 then prev else e.getD (i - 1) 0) (e.getD i 0) := by
+  intro e
+  induction e with
+  | nil => intro prev i hi; simp [clustersFrom] at hi
+  | cons x xs ih =>
+    intro prev i hi
+    cases i with
+    | zero => simp [clustersFrom]
+    | succ j =>
+      simp only [clustersFrom, List.getElem_cons_succ]
+      rw [ih x j (by simpa [clustersFrom] using hi)]
+      cases j <;> simp
+
+theorem len_filled (rs : List Int) (c : Nat) (h : Heap) (e : List Nat) (hg : h.get c = some e) :
+    H.len ⟨rs, some c⟩ h = (h, e.length, []) := by
+  simp [H.len, H.initialized, cellOf, hg]
+
+theorem charAt_filled (rs : List Int) (c : Nat) (h : Heap) (e : List Nat) (hg : h.get c = some e) (i : Nat) (hi : i < e.length) :
+    H.charAt ⟨rs, some c⟩ (i : Int) h = (h, .ok (sliceRunes rs (cOff e i) (cOff e (i + 1))), []) := by
+  have h1 : ¬ ((i : Int) < 0 ∨ (i : Int) ≥ (e.length : Int)) := by omega
+  simp only [H.charAt, H.initialized, H.ensure, cellOf, Option.getD_some, hg, h1, if_false, span_eq, Int.toNat_natCast]
+  rfl
+
+/-- `Len()` of an initialized value: afterwards the heap is stable under `Len()`, and the cache is filled unless the
+value is empty -/
+theorem len_stable (rs : List Int) (c : Nat) (h1 : Heap) (hc : c < h1.cells.length)
+    (hp : ∀ e, h1.get c = some e → Part e rs.length) :
+    ∃ h2 w2 e, H.len ⟨rs, some c⟩ h1 = (h2, e.length, w2) ∧ H.len ⟨rs, some c⟩ h2 = (h2, e.length, []) ∧
+      (e = [] ∨ h2.get c = some e) ∧ Part e rs.length ∧ c < h2.cells.length ∧
+      (e ≠ [] → H.ensure ⟨rs, some c⟩ h2 = (h2, e, [])) := by
+  cases hg : h1.get c with
+  | some e =>
+    refine ⟨h1, [], e, len_filled rs c h1 e hg, len_filled rs c h1 e hg, .inr hg, hp e hg, hc, fun _ => ?_⟩
+    simp [H.ensure, cellOf, hg]
+  | none =>
+    rcases rs with _ | ⟨r0, rs0⟩
+    · refine ⟨h1, [], [], ?_, ?_, .inl rfl, ?_, hc, fun h => absurd rfl h⟩
+      · simp [H.len, H.initialized, cellOf, hg]
+      · simp [H.len, H.initialized, cellOf, hg]
+      · exact ⟨by simp, by simp, by simp⟩
+    · have hg2 : (h1.set c (some (splitRunes (r0 :: rs0)))).get c = some (splitRunes (r0 :: rs0)) := get_set_self _ _ _ hc
+      refine ⟨h1.set c (some (splitRunes (r0 :: rs0))), [.fill c], splitRunes (r0 :: rs0), ?_, len_filled _ c _ _ hg2, .inr hg2,
+        part_splitRunes _, by simpa [Heap.size_set] using hc, fun _ => ?_⟩
+      · simp [H.len, H.initialized, H.ensure, cellOf, hg]
+      · simp [H.ensure, cellOf, hg2]
+
+/-- `IndexFunc` on an initialized receiver -/
+theorem gemIndexFunc_init (hx : Gen.GemCode.gemIndexFunc_extracted = true) (rs : List Int) (c : Nat) (f : List Int → Bool)
+    (h : Heap) (hv : GemOK h ⟨rs, some c⟩) :
+    Gen.GemCode.gemIndexFunc ⟨rs, some c⟩ f h = okM (H.indexFunc f ⟨rs, some c⟩) id h := by
+  first
+    | exact absurd hx (by decide)
+    | (obtain ⟨h2, w2, e, hl1, hl2, hfill, hp, hc2, hen⟩ := len_stable rs c h (hv.1 c rfl) (fun e he => hv.2 c e rfl he)
+       have hv2 : GemOK h2 ⟨rs, some c⟩ := ⟨fun c' hc' => by cases hc'; exact hc2, fun c' e' hc' he' => by
+         cases hc'
+         rcases hfill with h0 | hg2
+         · subst h0
+           have h3 := len_filled rs c h2 e' he'
+           rw [hl2] at h3
+           have : e'.length = 0 := by simpa using (congrArg (fun x => x.2.1) h3).symm
+           have : e' = [] := by simpa using this
+           subst this; exact hp
+         · rw [hg2] at he'; cases he'; exact hp⟩
+       have hlen1 := gemLen_regenerated (by decide) ⟨rs, some c⟩ h hv.1
+       have hlen2 := gemLen_regenerated (by decide) ⟨rs, some c⟩ h2 hv2.1
+       have hcl : (clustersFrom rs 0 e).length = e.length := clustersFrom_length' rs 0 e
+       have hloop := fun cond body hc hb => search_loop0 (clustersFrom rs 0 e) f cond body h2 hc hb (rs.length + 1)
+         (by have := hp.length_le; omega)
+       unfold Gen.GemCode.gemIndexFunc
+       simp only [gemInitialized_regenerated (by decide)]
+       unfold H.indexFunc
+       gem_run [H.initialized]
+       rw [whileCtlM_first _ _ _ _ h h2 (decide ((0 : Int) < (e.length : Int))) w2 ?e1 ?e2, hloop]
+       case e1 => gem_run [hlen1, hl1]
+       case e2 => gem_run [hlen2, hl2]
+       · rw [hl1]
+         by_cases h0 : e = []
+         · subst h0; simp [clustersFrom, findIdxInt, run_pure, prep_mk, prep]
+         · have h0' : ¬ ((e.length : Int) = 0) := by
+             have : e.length ≠ 0 := by simpa using h0
+             omega
+           simp only [hen h0]
+           simp only [h0', if_false, findIdxInt]
+           cases List.findIdx? f (clustersFrom rs 0 e) <;> simp [run_pure, prep_mk, prep, h0]
+       · intro i
+         gem_run [hlen2, hl2, hcl]
+       · intro i hi
+         have hi' : i < e.length := by rw [← hcl]; exact hi
+         have hg2 : h2.get c = some e := by
+           rcases hfill with h0 | hg2
+           · subst h0; simp at hi'
+           · exact hg2
+         have hch := gemCharAt_regenerated (by decide) ⟨rs, some c⟩ (i : Int) h2 hv2
+         have hcf := charAt_filled rs c h2 e hg2 i hi'
+         have hge := clustersFrom_getElem rs e 0 i hi
+         have hco : (if i = 0 then 0 else e.getD (i - 1) 0) = cOff e i := by simp [cOff]
+         rw [hco, ← cOff_succ] at hge
+         rw [hge]
+         gem_run [hch, hcf]
+         gem_close)
+
+theorem gemIndexFunc_regenerated (hx : Gen.GemCode.gemIndexFunc_extracted = true) (s : GStr) (f : List Int → Bool) (h : Heap)
+    (hv : GemOK h s) : Gen.GemCode.gemIndexFunc s f h = okM (H.indexFunc f s) id h := by
+  first
+    | exact absurd hx (by decide)
+    | (rcases s with ⟨rs, _ | c⟩
+       · have hi := gemIndexFunc_init hx rs h.cells.length f ⟨h.cells ++ [none]⟩
+           ⟨fun c hc => by cases hc; simp, fun c e hc he => by cases hc; simp [get_append_self] at he⟩
+         unfold Gen.GemCode.gemIndexFunc at hi ⊢
+         simp only [gemInitialized_regenerated (by decide)] at hi ⊢
+         unfold H.indexFunc at hi ⊢
+         simp only [run_okM_bind, H.initialized, Heap.alloc, prep_nil, okM_run] at hi ⊢
+         rw [hi]
+         simp only [prep, beq_iff_eq, List.nil_append, id]
+         split <;> simp
+       · exact gemIndexFunc_init hx rs c f h hv)
 
 end RosedVerif.GenCodeEq
